@@ -50,6 +50,7 @@ Dbl(p) == <<2 * p[1], 2 * p[2]>>
 \* degree of longitude is one metre on every ellipsoid
 EllOK(r) == r.ell = 0 \/ (r.ell \in 1..4 /\ Equatorial(r.A) /\ Equatorial(r.B) /\ Meet(r.A, r.B).kind = "coin")
 AtOrigin(p) == P2(p) = <<0, 0>> /\ ResOK(p)
+FiniteP(p) == p[1] >= -1000000 /\ p[1] <= 1000000 /\ p[3] >= -1000000 /\ p[3] <= 1000000
 
 IcFails(r) ==
   LET m == Meet(r.A, r.B)  sA == r.A[3]  sB == r.B[3] IN
@@ -105,6 +106,7 @@ IsFails(r) ==
            \o F("segment-answer-and-segmode", <<P2(r.p), r.segmode>> \in SegmentSet(2 * (m.a0 - r.A[3]), 2 * (m.b0 - r.B[3]), 2 * r.lenA, 2 * r.lenB))
       ELSE IF m.kind = "coin"
       THEN LET Ks == CoinKs(m, r.A[3], r.B[3])  SX == 2 * r.lenA  SY == 2 * r.lenB IN
+           IF ~FiniteP(r.p) THEN <<"finite-answer">> ELSE       \* (NaN is logged as 2000000001: no arithmetic on it)
            F("round-off", ResOK(r.p)) \o F("coincidence-indicator", r.c = m.c)
            \o F("on-coincidence-line", OnCoin(P2(r.p), m.c, Ks))
            \o F("segmode-definition", r.segmode \in SegModes(P2(r.p), SX, SY))
